@@ -316,3 +316,32 @@ V('c03-fix-fallthrough', 'C03', 'hl7apy/parser.py',
 V('c03-twin-enumerate-start', 'C03', 'hl7apy/parser.py',
   "    for index, subcomponent in enumerate(text.split(subcomp_sep)):",
   "    pieces = text.split(subcomp_sep)\n    for index, subcomponent in enumerate(pieces):", expect='clean')
+
+# ---------------------------------------------------------------- C08
+V('c08-pop-without-cursor', 'C08', 'hl7apy/parser.py',
+  "                        if current_parent is not None:\n                            parents_refs.pop()\n                            current_parent = current_parent.parent",
+  "                        if current_parent is not None:\n                            parents_refs.pop()\n                        if current_parent is not None and x > 0:\n                            current_parent = current_parent.parent",
+  rule='C08-S')
+V('c08-cursor-before-attach', 'C08', 'hl7apy/parser.py',
+  "                            if current_parent.parent is None:\n                                segments.append(group)\n                            else:\n                                current_parent.parent.add(group)\n                            current_parent = group",
+  "                            previous = current_parent\n                            current_parent = group\n                            if previous.parent is None:\n                                pass\n                            else:\n                                pass",
+  rule='C08-S')
+V('c08-push-not-popped', 'C08', 'hl7apy/parser.py',
+  "            if ref is not None:\n                break\n            else:\n                parents_ref.pop(-1)",
+  "            if ref is not None:\n                break", rule='C08-B')
+V('c08-search-sorted', 'C08', 'hl7apy/parser.py', "        for g in groups:\n            parents_ref.append((g[0], g[1]))",
+  "        for g in sorted(groups):\n            parents_ref.append((g[0], g[1]))", rule='C08-D')
+V('c08-groups-as-set', 'C08', 'hl7apy/parser.py', "    ref = None\n    groups = []\n    p_ref = parents_ref[-1][1]",
+  "    ref = None\n    groups = []\n    seen = set()\n    p_ref = parents_ref[-1][1]", rule='C08-D')
+V('c08-modes-differ', 'C08', 'hl7apy/parser.py',
+  "                    segment = parse_segment(s.strip(), version, encoding_chars, validation_level)\n                    segments.append(segment)",
+  "                    segment = parse_segment(s, version, encoding_chars, validation_level)\n                    segments.append(segment)",
+  rule='C08-E')
+V('c08-group-wrong-reference', 'C08', 'hl7apy/parser.py',
+  "                            group = Group(current_parent.name, version=version, reference=current_parent.reference,",
+  "                            group = Group(current_parent.name, version=version, reference=parents_refs[-1][1],",
+  rule='C08-A')
+V('c08-push-segments-too', 'C08', 'hl7apy/parser.py',
+  "        elif c[3] == \"GRP\":\n            groups.append(c)", "        else:\n            groups.append(c)", rule='C08-A')
+V('c08-twin-rename-loopvar', 'C08', 'hl7apy/parser.py', "        for g in groups:\n            parents_ref.append((g[0], g[1]))",
+  "        for grp in groups:\n            g = grp\n            parents_ref.append((grp[0], grp[1]))", expect='clean')
